@@ -156,6 +156,9 @@ PROPS = {
             "update steps dt >= 0; clock speed >= 0 ticks per second for the formula t0 + v*sum(dt), and not SecondsPerTick(0) there "
             "(1/0 is 0 over the reals, +inf in IEEE arithmetic: the clock then saturates, C05_infinite_speed_saturates); termination "
             "needs no hypothesis any more (C05_update_never_hangs, C05_no_history_hangs: the tick count is computed, not looped)",
+            "a speed tween whose start is infinite in the target's unit (0 ticks per second -> SecondsPerTick, SecondsPerTick(0) -> ticks "
+            "per second) is interpolated in the starting speed's unit since fix 9794379 (before: NaN clock time); over the reals 1/0 = 0, "
+            "so C05_speed_interpolation idealises that point and C05_speed_interpolation_never_nan (every number type) covers it",
             "u64 tick counts modelled as unbounded naturals; resource capacities not exhausted; ids are creation indices",
             "atomics are SeqCst: interleavings of atomic steps (no weak-memory reorderings)",
             "the three command slots of a clock are last-write-wins cells read once per on_start_processing (property C07)",
